@@ -281,6 +281,11 @@ V_Negative ==
                    Chk(\/ Affected(q) \/ IsDirect(q) \/ Score(q) >= 0
                        \/ \A j \in DOMAIN Ev[i].rpc.prune : Ev[i].rpc.prune[j].px = <<>>,
                        "P_C09_Negative", "px-in-prune-to-negative-peer", q) : i \in {j \in EvIdx : Sent(Ev[j])}})
+    \* whatever else would refuse the GRAFT (mesh at Dhi with an inbound sender, backoff, direct sender):
+    \* the answer to a sender with a negative score never carries PX
+    \cup (IF ~(Acc /\ S < 0 /\ Grafts # {}) THEN {} ELSE
+            Chk(\A i \in SentTo(SP) : \A j \in DOMAIN Ev[i].rpc.prune : Ev[i].rpc.prune[j].px = <<>>,
+                "P_C09_Negative", "px-in-refusal-to-negative-sender", SP))
     \* pruned at the next heartbeat
     \cup (IF ~HbOnly THEN {} ELSE
             UNION {UNION {IF Score(q) < 0 /\ ~IsDirect(q) /\ ~Affected(q)
@@ -342,6 +347,16 @@ CovStim ==
               THEN Tag("neg-graft", Rel(S, 0))
                    \cup (IF \E t \in Grafts : Joined(Pre, t) /\ PXAvail(SP, t) THEN Tag("neg-graft-pxavail", Rel(S, 0)) ELSE {})
               ELSE {})
+      \* a negative sender whose GRAFT meets ANOTHER refusal reason while PX has something to list
+      \cup (IF ~Gl /\ S < 0 /\ HasQ(SP) THEN
+               UNION {IF ~(Joined(Pre, t) /\ SP \notin MeshOf(Pre, t) /\ PXAvail(SP, t)) THEN {}
+                      ELSE (IF Dir THEN {"neg-graft-direct-pxavail"} ELSE {})
+                           \cup (IF ~Dir /\ ~NoBackoff(t, SP) /\ Pre.backoff[t][SP] > L.t THEN {"neg-graft-backoff-pxavail"} ELSE {})
+                           \cup (IF ~Dir /\ NoBackoff(t, SP) /\ Cardinality(MeshOf(Pre, t)) >= cfg.Dhi
+                                    /\ ~(SP \in DOMAIN Pre.outbound /\ Pre.outbound[SP])
+                                   THEN {"neg-graft-meshfull-pxavail"} ELSE {})
+                      : t \in Grafts}
+            ELSE {})
       \cup (IF ~Gl THEN UNION {UNION {Tag("px", Rel(S, thr.acceptPX) \o "/" \o pr.px[i].rec) : i \in DOMAIN pr.px} : pr \in LivePrunes} ELSE {})
       \cup (IF ~Gl /\ \E pr \in LivePrunes : Len(pr.px) > cfg.prunePeers THEN {"px/over-limit"} ELSE {})
       \cup (IF ~Gl /\ L.conn # <<>> THEN {"px/dialled"} ELSE {})
